@@ -134,7 +134,21 @@ var c11Pieces = []string{
 
 func c11GenStr() *rapid.Generator[c11Str] {
 	return rapid.Custom(func(t *rapid.T) c11Str {
-		mode := rapid.IntRange(0, 10).Draw(t, "mode")
+		mode := rapid.IntRange(0, 11).Draw(t, "mode")
+		if mode == 11 { // fully normalised over the whole length, only too long: short words joined by single spaces
+			target := rapid.IntRange(120, 300).Draw(t, "len")
+			var b []byte
+			for len(b) < target {
+				if len(b) > 0 {
+					b = append(b, ' ')
+				}
+				k := rapid.IntRange(1, 5).Draw(t, "k")
+				for j := 0; j < k; j++ {
+					b = append(b, rapid.SampledFrom([]string{"a", "Z", "0", "_", "-", ".", "~", "\u00e9", "\u0436", "\u20ac", "\u6f22", "\U0001f600"}).Draw(t, "piece")...)
+				}
+			}
+			return c11Str{B: b}
+		}
 		if mode == 0 {
 			return c11Str{B: rapid.SliceOfN(rapid.Byte(), 0, 300).Draw(t, "raw")}
 		}
@@ -183,6 +197,38 @@ func c11GenStr() *rapid.Generator[c11Str] {
 	})
 }
 
+// c11ValidIgnoringLength: every normalisation rule except the 128-byte limit already holds.
+func c11ValidIgnoringLength(b []byte) bool {
+	if !utf8.Valid(b) {
+		return false
+	}
+	s := string(b)
+	if s == "" {
+		return true
+	}
+	if s[0] == ' ' || s[len(s)-1] == ' ' || strings.Contains(s, "  ") {
+		return false
+	}
+	for _, r := range s {
+		if r != ' ' && (unicode.IsSpace(r) || !unicode.IsPrint(r)) {
+			return false
+		}
+	}
+	return true
+}
+
+// c11CutIndex is the byte index at which a too-long value is cut (last rune boundary <= 128).
+func c11CutIndex(b []byte) int {
+	if len(b) <= 128 {
+		return len(b)
+	}
+	n := 128
+	for n > 0 && !utf8.RuneStart(b[n]) {
+		n--
+	}
+	return n
+}
+
 func TestVerifC11Str(t *testing.T) {
 	ev := vpNewEv(t, "C11", "str")
 	rapid.Check(t, func(rt *rapid.T) {
@@ -201,6 +247,11 @@ func TestVerifC11Str(t *testing.T) {
 			}
 			if !nt {
 				cls = append(cls, "already-valid")
+			} else if len(c.B) > 128 && c11ValidIgnoringLength(c.B) {
+				cls = append(cls, "valid-except-too-long")
+				if i := c11CutIndex(c.B); i > 0 && c.B[i-1] == ' ' {
+					cls = append(cls, "too-long-cut-after-space")
+				}
 			}
 			ev.Case(nt, string(c.B), cls...)
 		})
